@@ -129,6 +129,8 @@ def extra_cases(chk) -> None:
   met = set()
   for vi in range(len(codec.OPAQUE)):
     for pos, v in positions.items():
+      if id(codec.OPAQUE[vi][0]) in codec.DERIVED and pos not in ('root', 'tuple'):
+        continue
       for way in codec.WAYS:
         row = codec.observe(v, vi, 0, way)
         if row is None:
@@ -235,10 +237,13 @@ def replay_store(chk, beh, vals_ids, rng, tag, hits, cfg) -> None:
         chk.evaluations += 1
       except store.StoreDivergence as d:
         fs = act[1] if act[0] not in ('Add', 'CloseSeq') else 'writer'
-        chk.violation({'action': act[0], 'clause': d.clause, 'cls': cls},
-                      {'part': 'store', 'cfg': cfg, 'step': k, 'act': act, 'fs': fs, 'what': d.detail,
-                       'paths': {str(i): store.rel(i) for i in store.PATH_TABLE}, 'history': acts})
+        known = chk.violation({'action': act[0], 'clause': d.clause, 'cls': cls},
+                              {'part': 'store', 'cfg': cfg, 'step': k, 'act': act, 'fs': fs, 'what': d.detail,
+                               'paths': {str(i): store.rel(i) for i in store.PATH_TABLE}, 'history': acts})
         chk.count('store_divergence:' + act[0] + ':' + d.clause + ':' + cls)
+        if known and act[0] == 'Exists':
+          prev = step.state
+          continue       # a read-only call: the stores still match the spec state
         break          # the file systems no longer match the spec state: cut the behaviour
       prev = step.state
   finally:
